@@ -50,6 +50,8 @@ Call(op, x, y, n) ==
     [] op = "mul"          -> [o |-> EMul(x, IntA(n)), self |-> FALSE]
     [] op = "at_most"      -> [o |-> EAtMost(x, IntA(n), TRUE), self |-> n > 0 /\ IsEmpty(x)]
     [] op = "capture"      -> [o |-> ECapture(x, NoneA), self |-> IsEmpty(x)]
+    [] op = "capture_n"    -> [o |-> ECapture(x, NameA("n")), self |-> IsEmpty(x)]
+    [] op = "capture_m"    -> [o |-> ECapture(x, NameA("m")), self |-> IsEmpty(x)]
     [] op = "group"        -> [o |-> EGroup(x, FALSE), self |-> IsEmpty(x)]
     [] op = "group_ci"     -> [o |-> IF GroupUnspecified(x, TRUE) THEN RaiseO("n/a") ELSE EGroup(x, TRUE), self |-> IsEmpty(x)]
     [] op = "followed_by"  -> [o |-> ELook("ahead", TRUE, x, y), self |-> IsEmpty(y)]
@@ -58,10 +60,13 @@ Call(op, x, y, n) ==
     [] op = "or"           -> [o |-> IF x.k = "cls" /\ y.k = "cls" /\ x.neg = y.neg
                                      THEN OkO(Cls(x.neg, Union(x.iv, y.iv))) ELSE RaiseO("CannotBeUnionedException"),
                                self |-> FALSE]
+    [] op = "sub"          -> [o |-> IF x.k = "cls" /\ y.k = "cls" /\ x.neg = y.neg /\ Diff(x.iv, y.iv) # <<>>
+                                     THEN OkO(Cls(x.neg, Diff(x.iv, y.iv))) ELSE RaiseO("EmptyClassException"),
+                               self |-> FALSE]
     [] op = "invert"       -> [o |-> IF x.k = "cls" THEN OkO(Cls(~x.neg, x.iv)) ELSE RaiseO("n/a"), self |-> FALSE]
 
-Unary  == {"optional", "one_or_more", "capture", "group", "group_ci", "match_at_line_start", "invert"}
-Binary == {"concat", "add", "either", "enclose", "followed_by", "not_preceded_by", "or"}
+Unary  == {"optional", "one_or_more", "capture", "capture_n", "capture_m", "group", "group_ci", "match_at_line_start", "invert"}
+Binary == {"concat", "add", "either", "enclose", "followed_by", "not_preceded_by", "or", "sub"}
 WithN  == {"exactly", "mul", "at_most"}
 
 Init == /\ \E l1 \in HLeaves, l2 \in HLeaves :
@@ -75,13 +80,22 @@ Build(op, i, j, n) ==
   /\ Len(heap) < MaxHeap
   /\ c.o.ok /\ c.o.ex = {}                       \* only calls that the specification accepts outright
   /\ (op = "invert" => heap[i].cls)
-  /\ (op = "or" => heap[i].cls /\ heap[j].cls)
+  /\ (op \in {"or", "sub"} => heap[i].cls /\ heap[j].cls)
   /\ (op = "either" => ~EitherUnspecified(heap[i].v, heap[j].v))
   /\ NamesUnique(c.o.v) /\ RefsDefined(c.o.v)
   /\ heap' = Append(heap, Obj(c.o.v, IF c.self THEN heap[i].ident ELSE Fresh,
-                                IF c.self THEN heap[i].cls ELSE op \in {"or", "invert"}))
+                                IF c.self THEN heap[i].cls ELSE op \in {"or", "sub", "invert"}))
   /\ hist' = Append(hist, <<op, i, j, n>>)
   /\ UNCHANGED cached
+
+\* a call that the specification refuses: nothing is built, the heap is unchanged - and the same call must be refused
+\* again however often it is repeated (the outcome of a call does not depend on earlier calls)
+Refused(op, i, j, n) ==
+  LET c == Call(op, heap[i].v, IF j = 0 THEN Eps ELSE heap[j].v, n) IN
+  /\ ~c.o.ok /\ Cardinality(c.o.ex) = 1 /\ c.o.ex # {"n/a"}
+  /\ (op \in {"or", "sub"} => heap[i].cls /\ heap[j].cls) /\ (op = "invert" => heap[i].cls)
+  /\ hist' = Append(hist, <<"!" \o op, i, j, n>>)
+  /\ UNCHANGED <<heap, cached>>
 
 Compile(i)        == /\ cached' = cached \cup {heap[i].ident}
                      /\ hist' = Append(hist, <<"compile", i, 0, 0>>) /\ UNCHANGED heap
@@ -96,6 +110,9 @@ Next ==
        \/ \E op \in HOps \cap Unary : Build(op, i, 0, 0)
        \/ \E op \in HOps \cap Binary, j \in 1..Len(heap) : Build(op, i, j, 0)
        \/ \E op \in HOps \cap WithN, n \in 0..2 : Build(op, i, 0, n)
+       \/ ("refused" \in HOps /\ \E op \in HOps \cap Unary : Refused(op, i, 0, 0))
+       \/ ("refused" \in HOps /\ \E op \in HOps \cap Binary, j \in 1..Len(heap) : Refused(op, i, j, 0))
+       \/ ("refused" \in HOps /\ \E op \in HOps \cap WithN, n \in 0..2 : Refused(op, i, 0, n))
        \/ ("compile" \in HOps /\ Compile(i))
        \/ ("get_compiled" \in HOps /\ \E d \in BOOLEAN : GetCompiled(i, d))
        \/ ("match" \in HOps /\ Match(i))
